@@ -153,8 +153,30 @@ class Sys:
         else:
             mk_s = lambda: self.cs.create_attribute("sp", typ, self.k, **kw)
             mk_d = lambda: self.cd.create_attribute("de", typ, elem_size=self.k, dense=True, **kw, **size_kw)
+        via = d.get("via_array") if (self.cat != "str" and n > 0) else None
+        if via:
+            # the dense attribute is an existing numpy array handed to the container (register_array_as_attribute); the array holds the
+            # default everywhere, so the attribute starts in the same state as a freshly created one.  "over_existing": the name is
+            # already taken by another dense attribute with other content, which the documentation says is overridden.
+            dt = {"bool": np.bool_, "int": np.int64, "float": np.float64, "complex": np.complex128}[self.cat]
+            fill = self.ms.default[0]
+            arr = np.full((n,) if (self.k == 1 and via == "flat") else (n, self.k), fill, dtype=dt)
+            if via == "over_existing":
+                ok, old = self.call("registry", "create_dense", lambda: self.cd.create_attribute("de", typ, elem_size=self.k, dense=True))
+                for i in range(n):
+                    w = R.gen_scalar(rng, self.cat, numpy_ok=False)
+                    if R.comps_in_bounds([w]):
+                        self.call("registry", "create_dense", old.__setitem__, i, w if self.k == 1 else [w] * self.k)
+            mk_d = lambda: self.cd.register_array_as_attribute("de", arr, **kw)
+            self.ctx.cls("dense_created:register_array_" + via)
         ok, self.sp = self.call("registry", "create_sparse", mk_s)
         ok, self.de = self.call("registry", "create_dense", mk_d)
+        if via:
+            ok, got = self.call("registry", "get_attribute", self.cd.get_attribute, "de", expect=(Exception,))
+            if not self.check(self.de is not None and ok and got is self.de, "registry", "register_array", "registered_array_is_not_the_attribute_of_that_name",
+                              "register_array_as_attribute(name, array) did not make (and return) the attribute answered under that name"
+                              + (" when the name was already taken" if via == "over_existing" else ""), returned=type(self.de).__name__):
+                raise Diverged()
         self.check(isinstance(self.sp, self.MA.Attribute) and isinstance(self.de, self.MA.ArrayAttribute), "registry", "create",
                        "wrong_storage_class", "create_attribute(dense=False/True) did not give Attribute/ArrayAttribute",
                        got=[type(self.sp).__name__, type(self.de).__name__])
@@ -717,6 +739,8 @@ def _run_random(desc, ctx):
     cat, k = desc["type"], desc["arity"]
     decl = {"type": cat, "arity": k, "container": desc["container"], "layout": desc["layout"], "n0": desc["n0"],
             "default": _custom_default(rng, cat) if desc["default"] == "custom" else None, "type_alias": desc.get("alias", False)}
+    if desc["seed"] % 5 == 1:
+        decl["via_array"] = ["column", "flat", "over_existing"][(desc["seed"] // 5) % 3]
     ctx.cls("type:" + cat)
     ctx.cls("arity:%d" % k)
     ctx.cls("default:" + desc["default"] + ("_scalar_on_vector" if (desc["default"] == "custom" and k > 1) else ""))
